@@ -111,7 +111,7 @@ def monitor(ops, outs, pid, extras=None):
             jid = unhx(t[1]) or b""
             flags = int(t[3]) if ln["res"] == "rc 0" else 0
             ctype = ctype0 = t[4]
-            cert = t[5] == "1"
+            cert = t[5] != "0"
             off.reset()
             conn_open = False
             sm_active = False
